@@ -211,7 +211,8 @@ pub fn check(s: &Scenario) -> CheckResult {
             if nlast > 0 && nodes[k0].spec.terminals() > 0 && (k0..m).all(|k| nodes[k].spec.terminals() >= 1) && chain_is_connected(&nodes, k0) {
                 let far = nodes[last].ext[out_idx(&nodes[last].spec)].unwrap_or(nodes[last].dev.terms[out_idx(&nodes[last].spec)]);
                 let got = read_command(far);
-                // expected scaling along the path
+                // expected scaling along the path. Every update re-propagates tied copies of the same command (x / r * r), so
+                // each earlier round may have cost a rounding per device: the tolerance grows with the rounds played so far
                 let mut v = value as f64;
                 let mut from = j0;
                 let mut hops = 0;
@@ -224,7 +225,7 @@ pub fn check(s: &Scenario) -> CheckResult {
                     from = 0; // enters the next device at its `in` terminal
                 }
                 ensure!(
-                    matches!(got, Some(g) if g.time == Time(time) && PositionDerivative::from(g.value) == pd(kind) && close(f32::from(g.value), v, hops.max(1))),
+                    matches!(got, Some(g) if g.time == Time(time) && PositionDerivative::from(g.value) == pd(kind) && close(f32::from(g.value), v, hops.max(1) + 2 * (ri + 1) * m)),
                     "C13/chain/far-end",
                     "round {}: after updating the chain {:?} in order, the far end reads {:?}; the newest command ({:?} {:e} at {}) was issued at device {} terminal {} and should arrive as {:e}",
                     ri, s.devs, got, pd(kind), value, time, k0, j0, v
